@@ -261,3 +261,13 @@ def check(ctx):
     F = ctx.F
     names = ['recipients', 'decrypt_subject_to_recipient', 'decrypt_to_recipient', 'encrypt_subject_to_recipients_opt', 'encrypt_subject_to_recipient_opt', 'encrypt_to_recipient', 'add_recipient_opt', 'seal', 'unseal']
     panic.slice_check(ctx, 'C10.6', [F.method1('Envelope', n) for n in names if F.method1('Envelope', n)], 'recipient')
+
+
+_check_before_errflow = check
+
+
+def check(ctx):
+    _check_before_errflow(ctx)
+    # C10.7 error discipline: no error of a fallible call is turned into "absent / false / default" outside the reviewed table
+    from .. import errflow
+    errflow.check(ctx, 'C10.7', ['src/extension/recipient.rs', 'src/seal.rs', 'src/extension/encrypt.rs'], 'recipient / encryption family')
